@@ -298,7 +298,7 @@ package secp256k1
 //@ func (*Point).ConditionalSelect
 //@   ct
 //@   props C03 C17 C18
-//@   weak a, b
+//@   weak v, a, b
 //@   requires ctrl == 0 ==> onc(a)
 //@   requires ctrl != 0 ==> onc(b)
 //@   panics !a.isValid || !b.isValid
@@ -683,4 +683,15 @@ package secp256k1
 //@   ensures len(scalars) == 1 ==> abs(v) == smul(old(val(scalars[0])), old(abs(points[0])))
 //@   ensures len(scalars) == 2 ==> abs(v) == padd(smul(old(val(scalars[0])), old(abs(points[0]))), smul(old(val(scalars[1])), old(abs(points[1]))))
 //@   ensures len(scalars) == 3 ==> abs(v) == padd(padd(smul(old(val(scalars[0])), old(abs(points[0]))), smul(old(val(scalars[1])), old(abs(points[1])))), smul(old(val(scalars[2])), old(abs(points[2]))))
+//@   modifies *v
+//@
+//@ func (*Point).SetUniformBytes
+//@   props C15 C18
+//@   option field
+//@   split len(src) in 48..48
+//@   bounded len(src) == 48: the only length the two suites pass (the function accepts 32..64)
+//@   requires len(src) == 48
+//@   apply sy@yP: swu_y_def(val(u))
+//@   apply ac@y: aff_coords(val(x), val(y))
+//@   ensures v.isValid && result == v && abs(v) == h2c_map(fp(os2ip(src)))
 //@   modifies *v
